@@ -15,7 +15,7 @@ from dask.array import Array
 from dask.base import normalize_token
 from dask.core import flatten
 from dask.dataframe import methods
-from dask.dataframe._pyarrow import to_pyarrow_string
+from dask.dataframe._pyarrow import is_object_string_index, to_pyarrow_string
 from dask.dataframe.core import (
     _concat,
     _get_divisions_map_partitions,
@@ -1324,11 +1324,22 @@ class Clip(Elemwise):
             return plain_column_projection(self, parent, dependents)
 
 
+def _to_pyarrow_string(df):
+    # ``to_pyarrow_string`` assigns the converted index to the object it was given
+    # when no column needed converting (no new object was created then).  A task
+    # must not modify its input: other tasks or the user may still hold it.
+    if (is_dataframe_like(df) or is_series_like(df)) and is_object_string_index(
+        df.index
+    ):
+        df = df.copy(deep=False)
+    return to_pyarrow_string(df)
+
+
 class ArrowStringConversion(Elemwise):
     _projection_passthrough = True
     _filter_passthrough = True
     _parameters = ["frame"]
-    operation = staticmethod(to_pyarrow_string)
+    operation = staticmethod(_to_pyarrow_string)
 
 
 class Between(Elemwise):
